@@ -1979,10 +1979,12 @@ def run(ck):
     ck.extra['rule'] = ('correspondence: (1) every (molecule, env arrangement incl. malformed, sign) of 5+7+4 seed molecules, random integer points for the '
                         'geometric functions; (2) registries of cumulene chains 2-6 atoms x end decorations, a zoo of hypervalent / metal / charged / '
                         'malformed molecules, corpus molecules, each also with shuffled numbering and insertion orders; (3) every stereo mark the real writer '
-                        'emits and the real reader interprets on family strings + corpus molecules in canonical and random orders; (4) fix_stereo on label '
+                        'emits and the real reader interprets (incl. the mark / neighbour order passed to add_atom_stereo) on family strings + corpus molecules in canonical, random '
+                        'and atom-mapped (RDKit-written, random map numbers) spellings; (4) fix_stereo on label '
                         'states of 27 templates. non-trivial = the implementation returned a sign / the molecule has a registry entry / a label is dropped or '
                         'several labels interact. search: corpus stereo molecules respelled by chython and re-read by RDKit; non-trivial = has at least one '
-                        'stereo element')
+                        'stereo element; atom-mapped spellings written by RDKit must be read as the isomer RDKit reads; labelled molecules edited through the API (delete / substitute / '
+                        'grow at a leaf atom) must carry the labels of the same molecule read back from its own SMILES and no label on a double bond with a symmetric end')
     random.seed(f'{ck.seed}:global')     # format(mol, 'r') draws from the global generator: fixed per VERIF_SEED
     proved = common.standard_proof_steps(ck, translators=['stereo', 'stereobody', 'stereoreg', 'elements'], extra_targets=['model/StereoRegistry.vo', 'model/StereoSmiles.vo', 'model/StereoFix.vo', 'model/StereoWedge.vo', 'model/StereoParse.vo', 'model/StereoChiral.vo'])
     tied = corr_translate(ck)
